@@ -4,7 +4,7 @@
    consistent for ALL streams / tables / block sequences (no size bound). *)
 From Coq Require Import List ZArith Bool.
 From LJT Require Import model.T81Spec proofs.T81StuffProofs proofs.T81ParseProofs proofs.T81LenProofs
-  proofs.T81BlockProofs proofs.T81ScanProofs proofs.T81HuffProofs proofs.T81WriterProofs proofs.T81Examples.
+  proofs.T81BlockProofs proofs.T81ScanProofs proofs.T81HuffProofs proofs.T81WriterProofs proofs.T81ParseInvProofs proofs.T81Examples.
 Import ListNotations.
 Local Open Scope Z_scope.
 
@@ -14,6 +14,14 @@ Local Open Scope Z_scope.
 Theorem C04_parse_emit : forall s, stream_ok s = true -> t81_parse (emit_stream s) = Some s.
 Proof. exact t81_parse_emit. Qed.
 Print Assumptions C04_parse_emit.
+
+(* (1a') the parser accepts ONLY what the grammar generates: t81_parse decides the language
+   { emit_stream s | stream_ok s } of byte strings -- "accepted by t81_parse" in the (->)
+   correspondence therefore means: the stream IS a valid T.81 marker/segment sequence *)
+Theorem C04_parse_characterisation : forall bs s, bytes bs ->
+  (t81_parse bs = Some s <-> (stream_ok s = true /\ bs = emit_stream s)).
+Proof. exact t81_parse_iff. Qed.
+Print Assumptions C04_parse_characterisation.
 
 (* (1b) writer_sound, both layers: for every choice of items and every image with 16-bit
    coefficients, a stream the writer produces that passes the validity check parses to the
